@@ -201,6 +201,7 @@ class CountedSubject(Subject):
                 "physical": self.real.physical(),
                 "api_physical": bool(self.obj.get_physical_lock_status()),
                 "real_held": self.real.held,
+                "ext_nonce_intact": self.real.ext == (b"ext-token" if self.ext else None),
                 "anomalies": tuple(self.real.anomalies)}
 
     def cleanup(self):
@@ -209,11 +210,21 @@ class CountedSubject(Subject):
 
 class _StoreSubject(Subject):
     """Objects whose LockDir lives in the per-worker vfs store."""
-    lock_path = None          # path of the lock directory in the store
-    other_locks = ()          # lock dirs that must never be physically held
+    root = None               # directory of the object in the store ("x" appended in the ext config)
+    lock_rel = None           # lock directory below it
+    other_rel = ()            # lock dirs that must never be physically held
+
+    def __init__(self, world, ext=False):
+        super().__init__(world, ext)
+        self.dir = self.root + ("x" if ext else "")
+        self.lock_path = "/%s/%s" % (self.dir, self.lock_rel)
+        self.other_locks = tuple("/%s/%s" % (self.dir, r) for r in self.other_rel)
 
     def _raw(self):
-        return self.world.store.raw()
+        r = self.world.cache.get("raw")
+        if r is None:
+            r = self.world.cache["raw"] = self.world.store.raw()
+        return r
 
     def _held(self, p):
         return self._raw().has(p.lstrip("/") + "/held")
@@ -267,7 +278,8 @@ class _StoreSubject(Subject):
 
 class LockableSubject(_StoreSubject):
     name = "lockable_files"
-    lock_path = "/lf/lock"
+    root = "lf"
+    lock_rel = "lock"
 
     def fresh(self):
         from breezy.bzr.lockable_files import LockableFiles
@@ -276,7 +288,7 @@ class LockableSubject(_StoreSubject):
         self.good = None
         if self.ext:
             self.setup_ext()
-        self.obj = LockableFiles(self.world.store.transport("lf"), "lock", LockDir)
+        self.obj = LockableFiles(self.world.store.transport(self.dir), "lock", LockDir)
         instrument(self.obj._lock, self.events)
 
     def observe(self):
@@ -289,15 +301,16 @@ class LockableSubject(_StoreSubject):
 class KnitRepoSubject(_StoreSubject):
     """A knit-format repository: Repository.lock_write goes to its control files (a real LockDir)."""
     name = "knit_repository"
-    lock_path = "/k/.bzr/repository/lock"
+    root = "k"
+    lock_rel = ".bzr/repository/lock"
 
     def fresh(self):
-        from breezy.repository import Repository
+        from breezy.controldir import ControlDir
         self.events = []
         self.good = None
         if self.ext:
             self.setup_ext()
-        self.obj = Repository.open(self.world.store.url + "k")
+        self.obj = ControlDir.open_from_transport(self.world.store.transport(self.dir)).open_repository()
         instrument(self.obj.control_files._lock, self.events)
 
     def _token_of(self, value):
@@ -315,14 +328,15 @@ class PackRepoSubject(_StoreSubject):
     """2a pack repository: lock_write is a logical lock only (the names lock is taken around
     pack-names updates, not by lock_write); read locks go to the control files."""
     name = "pack_repository"
-    lock_path = "/b/.bzr/repository/lock"
+    root = "b"
+    lock_rel = ".bzr/repository/lock"
     write_is_physical = False
 
     def fresh(self):
-        from breezy.repository import Repository
+        from breezy.controldir import ControlDir
         self.events = []
         self.good = None
-        self.obj = Repository.open(self.world.store.url + "b")
+        self.obj = ControlDir.open_from_transport(self.world.store.transport(self.dir)).open_repository()
         instrument(self.obj.control_files._lock, self.events)
 
     def _token_of(self, value):
@@ -338,8 +352,9 @@ class PackRepoSubject(_StoreSubject):
 
 class BranchSubject(_StoreSubject):
     name = "branch"
-    lock_path = "/b/.bzr/branch/lock"
-    other_locks = ("/b/.bzr/repository/lock",)
+    root = "b"
+    lock_rel = ".bzr/branch/lock"
+    other_rel = (".bzr/repository/lock",)
 
     def fresh(self):
         from breezy.branch import Branch
@@ -347,7 +362,7 @@ class BranchSubject(_StoreSubject):
         self.good = None
         if self.ext:
             self.setup_ext()
-        self.obj = Branch.open(self.world.store.url + "b")
+        self.obj = Branch.open_from_transport(self.world.store.transport(self.dir))
         instrument(self.obj.control_files._lock, self.events)
 
     def _token_of(self, value):
@@ -368,10 +383,10 @@ class TreeSubject(Subject):
     alphabet = ("R", "W", "T", "U")
 
     def fresh(self):
-        from breezy.workingtree import WorkingTree
+        from breezy.controldir import ControlDir
         self.events = []
         self.good = None
-        self.obj = WorkingTree.open(self.world.tree_dir)
+        self.obj = ControlDir.open_from_transport(self.world.tree_transport).open_workingtree()
         instrument(self.obj._control_files._lock, self.events)
 
     def _p(self, rel):
@@ -417,14 +432,17 @@ class World:
         self.cache = {}
         self.store = vfs.new_store()
         self.store.logging = False
-        t = self.store.transport("lf")
-        t.ensure_base()
-        LockableFiles(t, "lock", LockDir).create_lock()
-        for name, fmt in (("b", "2a"), ("k", "knit")):
+        for d in ("lf", "lfx"):
+            t = self.store.transport(d)
+            t.ensure_base()
+            LockableFiles(t, "lock", LockDir).create_lock()
+        for name, fmt in (("b", "2a"), ("k", "knit"), ("bx", "2a"), ("kx", "knit")):
             b = world.make_branch(self.store.transport(name), fmt)
             world.commit_spec(b, b"r0", [], {"a": world.F(b"a-id", b"x\n")})
         tree = wt.make_tree("bzr")
         self.tree_dir = tree.basedir
+        from breezy.transport import get_transport_from_path
+        self.tree_transport = get_transport_from_path(self.tree_dir)
         with open(os.path.join(self.tree_dir, "a"), "wb") as f:
             f.write(b"x\n")
         tree.add(["a"], ids=[b"a-id"])
